@@ -599,7 +599,12 @@ def c01_reader(**p):
                 a, b = blist[k]
                 u, w = (b, a) if k in flip else (a, b)
                 bl.append(v2000_bond_line(pos[u], pos[w], 1))
-            pl = fixed_lines("RAD", [(pos[a], mol.rad[a]) for a in order if mol.rad[a] is not None]) + fixed_lines("ISO", [(pos[a], mol.mass[a]) for a in order if mol.mass[a] is not None])
+            rad_e = [(pos[a], mol.rad[a]) for a in order if mol.rad[a] is not None]
+            iso_e = [(pos[a], mol.mass[a]) for a in order if mol.mass[a] is not None]
+            if p.get("one_entry_per_line"):
+                pl = [v2000_prop_line("RAD", [e]) for e in rad_e] + [v2000_prop_line("ISO", [e]) for e in iso_e]
+            else:
+                pl = fixed_lines("RAD", rad_e) + fixed_lines("ISO", iso_e)
             t2 = v2000_text(al, bl, pl)
         c.note("mol", mol.describe())
         c.note("file1", t1)
